@@ -18,6 +18,10 @@ RULE = ("circular problems on 24-45 bp sequences with whole-sequence and located
         "shifting and circular evaluations; non-trivial = a breach spans the junction before solving; distinct by JSON text")
 
 PATTERNS = ["GGC", "AAAAAA", "GAATTC", "CGTCTC", "ACG", "TATA"]
+# classes relocated by Model/Circular.v (circular_modelled)
+CIRC_CLASSES = ["AvoidPattern", "EnforcePatternOccurence", "EnforceGCContent", "EnforceTranslation", "AvoidStopCodons",
+                "AvoidChanges", "EnforceChanges", "EnforceSequence", "EnforceChoice", "AvoidRareCodons", "MaximizeCAI",
+                "AvoidHairpins"]
 
 
 def wrap_occ(seq, pat, strand=0):
@@ -82,8 +86,12 @@ def gen_circular(rng):
                 cs.append(("AvoidChanges", kw(location=rloc(rng, n, strands=(0,), minlen=8), max_edits=rng.choice([1, 2]))))
             elif r2 < 0.6:
                 cs.append(("AvoidChanges", kw(location=rloc(rng, n, strands=(0,), minlen=3))))
-            else:
+            elif r2 < 0.8:
                 cs.append(("AvoidChanges", gen_keep(rng, n)))
+            else:
+                d = dict(gen_keep(rng, n))
+                d.pop("max_edits", None)
+                cs.append(("EnforceChanges", tuple(sorted(d.items()))))
     if rng.random() < 0.2:
         # a breach across the origin whose only editable positions are next to positions protected by
         # indices on the other side of the origin
@@ -134,6 +142,39 @@ def impl_case(case):
         evs = pr.constraints_evaluations(autopass=False)
         return dict(term=spec_to_coq(pr.constraints[0]), evs=[ev_out(e) for e in evs.evaluations],
                     all_pass=bool(pr.all_constraints_pass(autopass=False)))
+    if k == "circany":
+        _, desc, role, seq, edited = case
+        try:
+            sp = build_spec(desc)
+            pr = dc.CircularDnaOptimizationProblem(seq, constraints=[sp] if role == "constraint" else [],
+                                                   objectives=[sp] if role == "objective" else [], logger=None)
+        except Exception as e:  # noqa
+            return dict(skipped="construction: %s" % type(e).__name__)
+        built = pr.sequence
+        if edited is not None:
+            pr.sequence = edited
+        cur = pr.sequence
+        own = (pr.constraints if role == "constraint" else pr.objectives)[0]
+        try:
+            view = pr._circularized_view(with_constraints=role == "constraint", with_objectives=role == "objective")
+            if view.sequence != 3 * cur and cur != built:
+                # edited out of the mutation space: fall back on the sequence the constructor left
+                pr.sequence = cur = built
+                view = pr._circularized_view(with_constraints=role == "constraint", with_objectives=role == "objective")
+            if view.sequence != 3 * cur:
+                # the sequence assigned lies outside the mutation space: the three-copy view is built through the
+                # ordinary constructor, which repairs it before anything is evaluated (never the case after a solve)
+                return dict(skipped="the three-copy view repairs a sequence outside the mutation space")
+        except Exception as e:  # noqa
+            return dict(skipped="view raises: %s" % type(e).__name__, loud=True)
+        try:
+            evs = pr.constraints_evaluations(autopass=False) if role == "constraint" else pr.objectives_evaluations()
+        except Exception as e:  # noqa
+            return dict(skipped="evaluation raises: %s" % type(e).__name__, loud=True)
+        if pr.sequence != cur:
+            return dict(moved=True, cur=cur, now=pr.sequence)
+        return dict(term=spec_to_coq(own), seq=cur, evs=[ev_out(e) for e in evs.evaluations],
+                    all_pass=all(bool(e.passes) for e in evs.evaluations))
     if k == "solve":
         p = json.loads(case[1])
         try:
@@ -222,6 +263,10 @@ def oracle(case, out):
         if len(o) != 3 * L or o[:L] != o[L:2 * L] or o[:L] != o[2 * L:]:
             return "mirrored sequence is not three equal copies"
         return None
+    if k == "circany":
+        if o.get("moved"):
+            return "evaluating the constraints/objectives of a circular problem changed its sequence (%s -> %s)" % (o["cur"], o["now"])
+        return None
     if k == "solve":
         if "skipped" in o:
             return None
@@ -250,6 +295,10 @@ def coq_case(case, out):
         if "skipped" in o:
             return None
         return "KCircEval %s %s %s %s" % (o["term"], cseq(case[3] if len(case) > 3 else case[2]), clist([civ(e) for e in o["evs"]]), cbool(o["all_pass"]))
+    if k == "circany":
+        if "skipped" in o or o.get("moved"):
+            return None
+        return "KCircEval %s %s %s %s" % (o["term"], cseq(o["seq"]), clist([civ(e) for e in o["evs"]]), cbool(o["all_pass"]))
     return None
 
 
@@ -296,6 +345,23 @@ def gen_cases(rng, tier):
             i = rng.choice([0, 1, n - 1, rng.randrange(n)])
             ed[i] = rng.choice("ACGT")
         cases.append(("circeval", desc, seq, "".join(ed)))
+    # every class whose circularization is modelled, located and whole-sequence, as constraint or objective,
+    # evaluated on the sequence it was built with and after edits (EnforceChanges: constructor edits included)
+    for cls in CIRC_CLASSES:
+        for _ in range(14 * N):
+            n = rng.choice([12, 18, 24, 30])
+            try:
+                desc, role, seq = specs.gen_spec(rng, cls, n)
+            except Exception:  # noqa
+                continue
+            edited = None
+            if rng.random() < 0.6:
+                ed = list(seq)
+                for _ in range(rng.choice([1, 1, 2, 3, 5])):
+                    i = rng.choice([0, 1, len(seq) - 1, rng.randrange(len(seq))])
+                    ed[i] = rng.choice("ACGT")
+                edited = "".join(ed)
+            cases.append(("circany", desc, role, seq, edited))
     for _ in range(120 * N):
         cases.append(("solve", json.dumps(gen_circular(rng), sort_keys=True)))
     return cases, {}
@@ -320,6 +386,9 @@ def run(chk):
             dist[k] = dist.get(k, 0) + 1
             if o[1]["junction_before"]:
                 dist["breach across the origin before solving"] = dist.get("breach across the origin before solving", 0) + 1
+        if c[0] == "circany" and o[0] == "ok":
+            k = "circany %s: %s" % (c[1][0], o[1].get("skipped", "compared with the model"))
+            dist[k] = dist.get(k, 0) + 1
 
 
 def replay(path):
